@@ -94,6 +94,44 @@ def r25b(ctx, run):
               loop[0]["ln"] if loop else cf.ln, "a type diagnostic must be rendered with line_indexes[&d.file] and source_files[&d.file].contents")
 
 
+def r25e(ctx, run):
+    """ranges and line index speak about the same text: the type diagnostics of a file are rendered with a LineIndex that compile_file builds from ITS copy
+    of the file's text (R25.b), while every range in a diagnostic is an offset into the text SourceFile::parse handed to the lexer.  So parse must lex,
+    parse and store the text it was given, unmodified - a copy with something stripped or replaced shifts every later line start."""
+    import prov
+    f = [g for g in ctx.syn.fns if g.name == "parse" and g.impl_ty == "SourceFile" and not g.in_test]
+    if len(f) != 1:
+        raise LookupError("SourceFile::parse")
+    f = f[0]
+    pname = next((n_ for n_, p_ in zip(f.param_names(), f.params) if n_ == "contents"), None)
+    if pname is None:
+        raise LookupError("SourceFile::parse has no `contents` parameter")
+    P = prov.Prov(f)
+    uses = []
+
+    def on(n, sc):
+        if n.get("k") == "call" and canon(n["f"]) in ("lexer::lex", "parser::parse_source_file", "parser::parse_repl_line"):
+            for a in n["a"]:
+                t = P.tags(a, sc)
+                if any(x.startswith("param:contents") for x in t) or any(x.startswith("m:") for x in t):
+                    uses.append((n["ln"], canon(n["f"]), t))
+        if n.get("k") == "struct" and n["p"] in ("Self", "SourceFile"):
+            for fld in n["f"]:
+                if fld[0] == "contents":
+                    uses.append((n["ln"], "the stored `contents`", P.tags(fld[1], sc)))
+    P.visit(on)
+    if len(uses) < 3:
+        raise LookupError("uses of the text in SourceFile::parse: %d" % len(uses))
+    for ln, what, tags in uses:
+        if what == "parser::parse_source_file" and "f:lexer::lex" in tags and not any(t.startswith("m:") for t in tags - {"m:lex"}):
+            continue    # the token argument
+        changed = sorted(t for t in tags if t.startswith("m:") and t[2:] not in ("clone", "as_str", "as_ref", "to_owned", "borrow", "deref", "lex", "into", "to_string"))
+        run.check("param:contents" in tags and not changed, f.site(ln), "%s gets the text as given" % what, "SourceFile::parse", "text-as-given:" + what, f.file, ln,
+                  "%s is given a text that is not the `contents` parameter as received (it passed through %s): the ranges of this file's diagnostics are offsets into that "
+                  "modified text, the LineIndex used for the type diagnostics is built from the caller's unmodified copy - lines and columns of later lines are shifted"
+                  % (what, changed or sorted(tags)[:5]))
+
+
 def r25c(ctx, run):
     """LineIndex::new / line_col evaluated abstractly on a text with two newlines at symbolic positions p1 < p2: for every position of
     the offset relative to the line starts (before, at, after each), line = number of newlines before the offset and
@@ -370,5 +408,6 @@ def rules(ctx):
         Rule("R25.d", "LineIndex::new / line_col are byte-accurate on texts with multi-byte characters (evaluated on concrete texts)", 1, r25d),
         Rule("R25.a", "the header shows the 1-based line/column of the start of the diagnostic's own range", 8, r25a),
         Rule("R25.c", "LineIndex::new / line_col evaluated on symbolic newline positions: line = newlines before the offset, column = offset - line start, for every ordering class", 0, r25c),
+        Rule("R25.e", "SourceFile::parse lexes, parses and stores the text it was given, unmodified (the caller's line index is built from the same text)", 3, r25e),
         Rule("R25.b", "the LineIndex handed to the renderer is built from the snippet's text and belongs to the diagnostic's file", 5, r25b),
     ]
